@@ -821,6 +821,7 @@ def component_count_sites(ix: Index, rel_filter: Callable[[str], bool] | None = 
         node_func: dict[int, FuncInfo] = {}
         for f in m.functions.values():
             node_func[id(f.node)] = f
+        scopes: dict[tuple, Scope] = {}
 
         def visit(n: ast.AST, chain: list[ast.FunctionDef]) -> None:
             if isinstance(n, ast.FunctionDef):
@@ -829,7 +830,19 @@ def component_count_sites(ix: Index, rel_filter: Callable[[str], bool] | None = 
                 visit(c, chain)
             if not isinstance(n, (ast.BinOp, ast.Tuple, ast.List)):
                 return
-            scope = Scope(chain)
+            # cheap structural pre-filter before the scope (def-use table) is built
+            if isinstance(n, ast.BinOp):
+                if isinstance(n.op, ast.Mult):
+                    if not any(isinstance(x, (ast.Tuple, ast.List)) and len(x.elts) == 1 for x in (n.left, n.right)):
+                        return
+                elif not isinstance(n.op, ast.Pow):
+                    return
+            elif not (len(n.elts) >= 2 and any(isinstance(x, ast.Starred) for x in n.elts[1:]) and not isinstance(n.elts[0], ast.Starred)):
+                return
+            key = tuple(id(c) for c in chain)
+            if key not in scopes:
+                scopes[key] = Scope(chain)
+            scope = scopes[key]
             fi = node_func.get(id(chain[0])) if chain else None
             found: list[tuple[str, ast.expr]] = []
             if isinstance(n, ast.BinOp) and isinstance(n.op, ast.Pow):
@@ -1016,6 +1029,7 @@ class SymEval:
         self.lenient = lenient  # statements outside the grammar forget what they may assign
         self.loops: list[LoopSummary] = []
         self.skipped: list[str] = []
+        self.local_defs: dict[str, ast.FunctionDef] = {}
 
     def fail(self, node, msg):
         raise AnalysisError(f"{self.where}: {msg} (line {getattr(node, 'lineno', '?')})")
@@ -1051,7 +1065,8 @@ class SymEval:
     def _stmt(self, s: ast.stmt, p: Path) -> list[Path]:
         if isinstance(s, (ast.Pass, ast.Import, ast.ImportFrom, ast.FunctionDef)):
             if isinstance(s, ast.FunctionDef):
-                p.env[s.name] = ("funcdef", s)
+                p.env[s.name] = sp.Symbol(s.name)
+                self.local_defs[s.name] = s
             return [p]
         if isinstance(s, ast.Assert):
             p.events.append(("assert", s.test))
@@ -1329,8 +1344,8 @@ class SymEval:
                 return a
             if t is False:
                 return b
-            if isinstance(a, sp.Basic) and isinstance(b, sp.Basic):
-                return sp.Piecewise((a, t), (b, True))
+            if isinstance(t, sp.Not):  # `a if not c else b` is `b if c else a`
+                t, a, b = t.args[0], b, a
             return F("ifexp")(t, _as_term(a), _as_term(b))
         if isinstance(e, ast.Attribute):
             base = self.ev1(e.value, p)
